@@ -32,7 +32,7 @@ LEVEL_TEXT = ('Twin-history monitor (aliased vs canonical) with snapshot compari
 LEVEL_NOTE = 'Trusted: snapshot code, the canonical twin. Bounded by 3 variables / 4 alias names / history length 10.'
 TECHNIQUE = 'twin-history non-interference monitor + sys.monitoring step budget (runtime monitor)'
 VARS = ['Y', 'C', 'G']
-ALIAS_NAMES = ['GDP', 'Cons', 'Out', 'Gov']
+ALIAS_NAMES = ['GDP', 'Cons', 'Out', 'Gov', '_gdp', '__mpc', 'x', 'YY']
 BUDGET = 20000
 
 
@@ -69,7 +69,7 @@ def alias_maps(rng, count):
     """Maps alias -> target; targets are variables or other aliases (chains), plus self-maps."""
     out = [{}, {'GDP': 'Y'}, {'GDP': 'Y', 'Out': 'GDP'}, {'GDP': 'Y', 'Out': 'GDP', 'Gov': 'Out'}, {'GDP': 'Y', 'Cons': 'Y'},
            {'Y': 'Y'}, {'GDP': 'Y', 'Y': 'Y'}, {'GDP': 'GDP'}, {'Cons': 'C', 'Gov': 'G', 'GDP': 'Y', 'Out': 'Y'},
-           {'Out': 'GDP', 'GDP': 'Y'}, {'Gov': 'Out', 'Out': 'GDP', 'GDP': 'Y'}, {'GDP': 'Y', 'Cons': 'GDP', 'Out': 'GDP', 'Gov': 'Cons'}]
+           {'Out': 'GDP', 'GDP': 'Y'}, {'Gov': 'Out', 'Out': 'GDP', 'GDP': 'Y'}, {'_gdp': 'Y'}, {'_c': 'C', 'Cons': '_c'}, {'GDP': 'Y', 'Cons': 'GDP', 'Out': 'GDP', 'Gov': 'Cons'}]
     while len(out) < count:
         k = rng.randint(1, 4)
         names = rng.sample(ALIAS_NAMES, k)
